@@ -131,4 +131,43 @@ theorem imageBox_encloses (m : Mat) (pts : List (Rat × Rat)) (p : Rat × Rat) (
     simp only [imageBox]
     exact ⟨minQ_le _ _ hx, le_maxQ _ _ hx, minQ_le _ _ hy, le_maxQ _ _ hy⟩
 
+/-! ## CID-keyed fonts: the composed map -/
+
+theorem image_compose (fd fm : Mat) (p : Rat × Rat) :
+    image (pdfMatrix (fd.mul fm)) p = cidImage fd fm p := by
+  simp only [Mat.mul, image, pdfMatrix, cidImage]
+  refine Prod.ext ?_ ?_ <;> simp only <;> ring
+
+theorem imageBox_eq_imageBoxF (m : Mat) (pts : List (Rat × Rat)) :
+    imageBox m pts = imageBoxF (image m) pts := by
+  cases pts <;> rfl
+
+/-- `GlyphBBoxPDF` of a glyph of a CID-keyed font (`M = FD.Mul(fm).Mul(Scale 1000)`) is the bounding
+box of the outline points mapped through the FD matrix first, the font matrix second, ×1000 -/
+theorem glyphBBoxPDF_cid (fd fm : Mat) (p0 : Rat × Rat) (ps : List (Rat × Rat)) :
+    glyphBBoxPDF (fd.mul fm) (some (p0 :: ps)) = imageBoxF (cidImage fd fm) (p0 :: ps) := by
+  have h := glyphBBoxPDF_eq_imageBox (fd.mul fm) (p0 :: ps)
+  simp only at h
+  rw [h, imageBox_eq_imageBoxF]
+  have : image (pdfMatrix (fd.mul fm)) = cidImage fd fm := funext (image_compose fd fm)
+  rw [this]
+
+theorem imageBoxF_encloses (f : Rat × Rat → Rat × Rat) (pts : List (Rat × Rat)) (p : Rat × Rat)
+    (hp : p ∈ pts) :
+    (imageBoxF f pts).llx ≤ (f p).1 ∧ (f p).1 ≤ (imageBoxF f pts).urx ∧
+    (imageBoxF f pts).lly ≤ (f p).2 ∧ (f p).2 ≤ (imageBoxF f pts).ury := by
+  cases pts with
+  | nil => cases hp
+  | cons q qs =>
+    have hq : f p ∈ (q :: qs).map f := List.mem_map_of_mem hp
+    have hx : (f p).1 ∈ ((q :: qs).map f).map (·.1) := List.mem_map_of_mem hq
+    have hy : (f p).2 ∈ ((q :: qs).map f).map (·.2) := List.mem_map_of_mem hq
+    simp only [imageBoxF]
+    exact ⟨minQ_le _ _ hx, le_maxQ _ _ hx, minQ_le _ _ hy, le_maxQ _ _ hy⟩
+
+/-- `GlyphWidthPDF` of a CID-keyed font uses the same composed matrix `FD.Mul(fm)` -/
+theorem glyphWidthPDF_cid (fd fm : Mat) (w : Rat) :
+    glyphWidthPDFcff w (fd.mul fm) = cidWidthPDF fd fm w := by
+  rfl
+
 end SfntV.Metrics
